@@ -77,7 +77,8 @@ def run(ctx):
         distinct_nontrivial=fw.distinct_nontrivial(cases),
         rule="plans from harness/plangen (1-2 blocks, 1-2 sequences, 1-3 actions in the quick tier; up to 3x3x3 in the thorough -big run; each of the "
              "10 check groups with p in {.15,.35,.6}; keys with p .3; Req/AltReq/SecReq requests, the latter with coerce:\"secure\" fields at four "
-             "depths), crafted into the execution states fresh / submitted / running / completed / failed (ids, states, times, attempts with "
+             "depths; Plan.Meta, request Tags/Keys/KV and response Items drawn from the shapes nil / empty / empty with capacity / buf[:0] of a "
+             "filled buffer / non-empty with spare capacity / exact; attempts slices exact, with spare capacity or as appended), crafted into the execution states fresh / submitted / running / completed / failed (ids, states, times, attempts with "
              "responses and wrapped errors, reason, submit time, plan ids, registry pointers, etags); every 5th case made irregular (1-3 of 20 kinds, the first one cycling through all kinds: nil / empty "
              "slices, nil elements, empty sequence, empty attempts, blank names, short timeout, unknown plugin, rejected / nil request); the object "
              "cloned is the plan or a block / sequence / checks group / action of it; each case = one original x the 4 option sets; evaluations = "
@@ -89,6 +90,7 @@ def run(ctx):
         distribution=dict(kind=fw.histogram(c["dist"]["kind"] for c in cases),
                           mode=fw.histogram(c["dist"]["mode"] for c in cases),
                           stream=fw.histogram(c["dist"]["stream"] for c in cases),
+                          meta_shape=fw.histogram(c["dist"]["meta_shape"] for c in cases if c["dist"]["kind"] == "plan"),
                           irregular=fw.histogram(x for c in cases for x in (c["dist"]["irregular"] or [])),
                           nodes=fw.histogram(min(c["dist"]["nodes"] // 10 * 10, 200) for c in cases),
                           actions=fw.histogram(min(c["dist"]["actions"], 30) for c in cases),
